@@ -537,3 +537,74 @@ Example from_triplets_products_order_independent_nonvacuous :   (* the reversed 
   fl_res (fun o : option AQ => flat_q (oval o)) (let* s := sp_from_triplets 2 2 dup_ts in sp_get s 1 1)
   <> fl_res (fun o : option AQ => flat_q (oval o)) (let* s := sp_from_triplets 2 2 (rev dup_ts) in sp_get s 1 1).
 Proof. split; [exact dup_RingLaws|]. split; [apply Permutation_rev|]. split; [exact dup_ts_in_range|]. vm_compute. discriminate. Qed.
+
+(* ---- round 7 (linearity): both sparse products are linear maps of their vector argument.  Stated with the
+   library's own guarded vector operations (vadd / vsub: size guard then element-wise; vscale: vector * scalar),
+   for every well-formed storage (duplicates included), any shape, any ring.  Together with sp_mul_spec this is
+   what "sparse products equal dense products" implies for combinations of products (residuals b - A x,
+   updates A (x + alpha p)) as the Krylov solvers of C08/C09 form them. *)
+From OV Require Proofs.SparseLinear.
+
+Theorem sp_mul_add : forall (A : Arith), RingLaws A -> forall (s : sparse A) (x y : list A),
+  wfS s -> length x = sp_cols s -> length y = sp_cols s ->
+  exists xy u v uv, vadd x y = Ok xy /\ sp_mul s x = Ok u /\ sp_mul s y = Ok v /\ vadd u v = Ok uv /\ sp_mul s xy = Ok uv.
+Proof. intros A RL s x y. exact (SparseLinear.sp_mul_add_lemma RL s x y). Qed.
+Check sp_mul_add : forall (A : Arith), RingLaws A -> forall (s : sparse A) (x y : list A),
+  wfS s -> length x = sp_cols s -> length y = sp_cols s ->
+  exists xy u v uv, vadd x y = Ok xy /\ sp_mul s x = Ok u /\ sp_mul s y = Ok v /\ vadd u v = Ok uv /\ sp_mul s xy = Ok uv.
+Print Assumptions sp_mul_add.
+
+Theorem sp_mul_sub : forall (A : Arith), RingLaws A -> forall (s : sparse A) (x y : list A),
+  wfS s -> length x = sp_cols s -> length y = sp_cols s ->
+  exists xy u v uv, vsub x y = Ok xy /\ sp_mul s x = Ok u /\ sp_mul s y = Ok v /\ vsub u v = Ok uv /\ sp_mul s xy = Ok uv.
+Proof. intros A RL s x y. exact (SparseLinear.sp_mul_sub_lemma RL s x y). Qed.
+Check sp_mul_sub : forall (A : Arith), RingLaws A -> forall (s : sparse A) (x y : list A),
+  wfS s -> length x = sp_cols s -> length y = sp_cols s ->
+  exists xy u v uv, vsub x y = Ok xy /\ sp_mul s x = Ok u /\ sp_mul s y = Ok v /\ vsub u v = Ok uv /\ sp_mul s xy = Ok uv.
+Print Assumptions sp_mul_sub.
+
+Theorem sp_mul_scale_vec : forall (A : Arith), RingLaws A -> forall (s : sparse A) (x : list A) (a : A),
+  wfS s -> length x = sp_cols s ->
+  exists u, sp_mul s x = Ok u /\ sp_mul s (vscale x a) = Ok (vscale u a).
+Proof. intros A RL s x a. exact (SparseLinear.sp_mul_scale_vec_lemma RL s x a). Qed.
+Check sp_mul_scale_vec : forall (A : Arith), RingLaws A -> forall (s : sparse A) (x : list A) (a : A),
+  wfS s -> length x = sp_cols s ->
+  exists u, sp_mul s x = Ok u /\ sp_mul s (vscale x a) = Ok (vscale u a).
+Print Assumptions sp_mul_scale_vec.
+
+Theorem sp_mul_zero : forall (A : Arith), RingLaws A -> forall (s : sparse A), wfS s ->
+  sp_mul s (repeat (@Arith.zero A) (sp_cols s)) = Ok (repeat (@Arith.zero A) (sp_rows s)).
+Proof. intros A RL s. exact (SparseLinear.sp_mul_zero_lemma RL s). Qed.
+Check sp_mul_zero : forall (A : Arith), RingLaws A -> forall (s : sparse A), wfS s ->
+  sp_mul s (repeat (@Arith.zero A) (sp_cols s)) = Ok (repeat (@Arith.zero A) (sp_rows s)).
+Print Assumptions sp_mul_zero.
+
+Theorem sp_tmul_add : forall (A : Arith), RingLaws A -> forall (s : sparse A) (x y : list A),
+  wfS s -> length x = sp_rows s -> length y = sp_rows s ->
+  exists xy u v uv, vadd x y = Ok xy /\ sp_tmul s x = Ok u /\ sp_tmul s y = Ok v /\ vadd u v = Ok uv /\ sp_tmul s xy = Ok uv.
+Proof. intros A RL s x y. exact (SparseLinear.sp_tmul_add_lemma RL s x y). Qed.
+Check sp_tmul_add : forall (A : Arith), RingLaws A -> forall (s : sparse A) (x y : list A),
+  wfS s -> length x = sp_rows s -> length y = sp_rows s ->
+  exists xy u v uv, vadd x y = Ok xy /\ sp_tmul s x = Ok u /\ sp_tmul s y = Ok v /\ vadd u v = Ok uv /\ sp_tmul s xy = Ok uv.
+Print Assumptions sp_tmul_add.
+
+Theorem sp_tmul_scale_vec : forall (A : Arith), RingLaws A -> forall (s : sparse A) (y : list A) (a : A),
+  wfS s -> length y = sp_rows s ->
+  exists w, sp_tmul s y = Ok w /\ sp_tmul s (vscale y a) = Ok (vscale w a).
+Proof. intros A RL s y a. exact (SparseLinear.sp_tmul_scale_vec_lemma RL s y a). Qed.
+Check sp_tmul_scale_vec : forall (A : Arith), RingLaws A -> forall (s : sparse A) (y : list A) (a : A),
+  wfS s -> length y = sp_rows s ->
+  exists w, sp_tmul s y = Ok w /\ sp_tmul s (vscale y a) = Ok (vscale w a).
+Print Assumptions sp_tmul_scale_vec.
+
+Theorem sp_tmul_zero : forall (A : Arith), RingLaws A -> forall (s : sparse A), wfS s ->
+  sp_tmul s (repeat (@Arith.zero A) (sp_rows s)) = Ok (repeat (@Arith.zero A) (sp_cols s)).
+Proof. intros A RL s. exact (SparseLinear.sp_tmul_zero_lemma RL s). Qed.
+Check sp_tmul_zero : forall (A : Arith), RingLaws A -> forall (s : sparse A), wfS s ->
+  sp_tmul s (repeat (@Arith.zero A) (sp_rows s)) = Ok (repeat (@Arith.zero A) (sp_cols s)).
+Print Assumptions sp_tmul_zero.
+
+(* non-vacuity: the linearity hypotheses hold at the exact instance, and the model computes A(x + x) = 2 A x there *)
+Example sp_mul_add_nonvacuous : wfS ex_s /\ length ex_x = sp_cols ex_s /\
+  fl_res (fl_list flat_q) (let* xx := vadd ex_x ex_x in sp_mul ex_s xx) = [0; 3;  2; -2; 1;  2; -42; 1;  2; 29; 3]%Z.
+Proof. split; [exact ex_s_wf|]. split; [reflexivity|]. vm_compute. reflexivity. Qed.
